@@ -2794,28 +2794,33 @@ class Env(cabc.MutableMapping):
         """
         old = {}
         local = self._d._local
-        # single positional argument should be a dict-like object
-        if other is not None:
-            for k, v in other.items():
-                old[k] = self._capture_for_swap(k, local)
-                self._set_item(k, v, thread_local=True)
-        # kwargs could also have been sent in
-        for k, v in kwargs.items():
-            # a key already given in ``other`` was captured there; capturing
-            # it again would record the swapped-in value as the one to restore
-            if k not in old:
-                old[k] = self._capture_for_swap(k, local)
-            self._set_item(k, v, thread_local=True)
-
-        if overlay is not None:
-            self._overlay_stack.append(overlay)
+        pushed = False
         exception = None
         try:
+            # The swapped-in values are set inside the ``try`` so that a
+            # value that fails to convert does not leave the variables
+            # swapped before it behind.
+            # single positional argument should be a dict-like object
+            if other is not None:
+                for k, v in other.items():
+                    old[k] = self._capture_for_swap(k, local)
+                    self._set_item(k, v, thread_local=True)
+            # kwargs could also have been sent in
+            for k, v in kwargs.items():
+                # a key already given in ``other`` was captured there; capturing
+                # it again would record the swapped-in value as the one to restore
+                if k not in old:
+                    old[k] = self._capture_for_swap(k, local)
+                self._set_item(k, v, thread_local=True)
+
+            if overlay is not None:
+                self._overlay_stack.append(overlay)
+                pushed = True
             yield self
         except Exception as e:
             exception = e
         finally:
-            if overlay is not None:
+            if pushed:
                 self._overlay_stack.pop()
             # restore the values
             for k, v in old.items():
